@@ -246,6 +246,69 @@ def run3(d, k):
 ''', [("run", [([],), ([5, 6],)]), ("run2", [()]), ("run3", [({"a": (True,)}, "a"), ({}, "a")])])
 
 
+# ---- context managers written for one purpose
+case('''
+import contextlib
+
+LOG = []
+
+class _Restore:
+    def __init__(self, store, saved):
+        self.store = store
+        self.saved = saved
+    def __enter__(self):
+        LOG.append("enter")
+        return None
+    def __exit__(self, exc_type, exc, tb):
+        for k in self.saved:
+            self.store[k] = self.saved[k]
+        LOG.append("exit")
+        return False
+
+@contextlib.contextmanager
+def _scope(store, key):
+    LOG.append("pre")
+    store[key] = "tmp"
+    try:
+        yield key
+    finally:
+        del store[key]
+        LOG.append("post")
+
+@contextlib.contextmanager
+def _plain(tag):
+    LOG.append(tag)
+    yield
+    LOG.append(tag + "-done")
+
+def run(fail):
+    LOG.clear()
+    store = {"a": 1}
+    out = []
+    try:
+        with _Restore(store, {"a": 1}):
+            store["a"] = 2
+            if fail == 1:
+                raise ValueError("x")
+        with _scope(store, "h") as k:
+            out.append((k, store[k]))
+            if fail == 2:
+                raise KeyError("y")
+        with _plain("p"):
+            if fail == 3:
+                raise IndexError("z")
+        with contextlib.suppress(KeyError, IndexError):
+            if fail == 4:
+                raise KeyError("w")
+            if fail == 5:
+                raise ValueError("v")
+            out.append("in")
+    except Exception as e:
+        out.append(type(e).__name__)
+    return out, sorted(store.items()), list(LOG)
+''', [("run", [(0,), (1,), (2,), (3,), (4,), (5,)])])
+
+
 def outcome(ns, fn, args):
     import copy
     try:
